@@ -187,7 +187,7 @@ func checkWalk(c WalkCase) (v ev.Verdict) {
 		if next < len(c.Messages) {
 			pending = c.Messages[next]
 		}
-		allowed := sm.RefStepTok(c.Spec, cur.NodeName, map[string]interface{}(cur.Bs), pending, sm.TokenFrom(s))
+		allowed := sm.RefStepTok(c.Spec, cur.NodeName, map[string]interface{}(cur.Bs), pending, sm.TokenFrom(s), sm.ErrorTextFrom(s))
 		anyErr := false
 		for _, al := range allowed {
 			if al.Err {
